@@ -72,8 +72,8 @@ func genScenario(r *hx.Rand, tier string) *Scenario {
 	sc := &Scenario{}
 	sc.Metrics = r.Chance(1, 2)
 	sc.Tracing = r.Chance(1, 2)
-	sc.Listen = pickW(r, []int{lOK, lBusy, lBad}, []int{82, 11, 7})
-	sc.Starts = genHooks(r, []int{bOK, bErr, bPanic, bBlock, bCancelOK}, []int{80, 6, 3, 5, 6})
+	sc.Listen = pickW(r, []int{lOK, lBusy, lBad}, []int{88, 7, 5})
+	sc.Starts = genHooks(r, []int{bOK, bErr, bPanic, bBlock, bCancelOK}, []int{84, 5, 2, 4, 5})
 	sc.Readies = genHooks(r, []int{bOK, bPanic}, []int{85, 15})
 	sc.NReload = pickW(r, []int{0, 1, 2, 3}, []int{3, 3, 3, 2})
 	sc.Shuts = genHooks(r, []int{bOK, bPanic, bBlock}, []int{86, 4, 10})
